@@ -23,9 +23,9 @@ func init() {
 		Level: "exploration",
 		Cases: func(t string) int {
 			if t == "thorough" {
-				return 9000
+				return 18000
 			}
-			return 720
+			return 1800
 		},
 		Batch: func(t string) int { return 30 },
 		Floors: []string{"comparisons", "path_verbatim_copy", "path_column_reencode", "path_row", "source_file", "source_buffer", "source_range_view", "source_multi", "source_merged", "source_dedup", "source_foreign_reversed", "source_converted", "source_merged_wrapped", "wrapped_dedup_input", "wrapped_foreign_input",
